@@ -13,7 +13,7 @@ REPL_T = {3, 7, 8}
 RESP_T = {4, 9}
 
 TIERS = {
-    "quick": ["--runs", "120", "--steps", "500"],
+    "quick": ["--runs", "200", "--steps", "500"],
     "thorough": ["--runs", "1500", "--steps", "800"],
 }
 
@@ -83,7 +83,7 @@ def cache_key(tier, seed):
     for p in (C.VH, C.DRIVER):
         st = os.stat(p)
         h.update(("%s:%d:%d" % (p, st.st_mtime_ns, st.st_size)).encode())
-    h.update(("v3:%s:%s" % (tier, seed)).encode())
+    h.update(("v10:%s:%s" % (tier, seed)).encode())
     return h.hexdigest()[:16]
 
 
@@ -128,21 +128,25 @@ def run_differential(tier, seed):
                     if li != lm:
                         dis.append({"file": c, "line": ln, "meta": le.strip(),
                                     "keys": sorted(diff_keys(lm, li))})
-        # tie (B): the election-layer acceptor over the P-level event traces of the same runs
-        pn, pfirst, pnd = C.run_model_on_shards(d, "pel-sim")
-        prej = []
-        for c in C.shard_files(d, "pel-sim", "cases"):
-            m = c.replace(".cases.", ".model.")
-            with open(m) as fm:
-                for ln, lm in enumerate(fm, 1):
-                    if not lm.startswith("1 "):
-                        prej.append({"file": c, "line": ln, "answer": lm.strip()})
-        pev = 0
-        for c in C.shard_files(d, "pel-sim", "impl"):
-            with open(c) as f:
-                for l in f:
-                    pev += int(l.split()[1])
-        s = {"pel_traces": pn, "pel_events": pev, "pel_rejects": prej[:200],
+        # tie (B): the acceptors of P (election layer, log layer) over the P-level event traces of the same runs
+        acc = {}
+        for pref, key in (("pel-sim", "pelection"), ("plog-sim", "plog")):
+            pn, pfirst, pnd = C.run_model_on_shards(d, pref)
+            prej = []
+            for c in C.shard_files(d, pref, "cases"):
+                m = c.replace(".cases.", ".model.")
+                with open(m) as fm:
+                    for ln, lm in enumerate(fm, 1):
+                        if not lm.startswith("1 "):
+                            prej.append({"file": c, "line": ln, "answer": lm.strip()})
+            pev = 0
+            for c in C.shard_files(d, pref, "impl"):
+                with open(c) as f:
+                    for l in f:
+                        pev += int(l.split()[1])
+            acc[key] = {"traces": pn, "events": pev, "rejects": prej[:200]}
+        pn, pev, prej = acc["pelection"]["traces"], acc["pelection"]["events"], acc["pelection"]["rejects"]
+        s = {"acceptors": acc, "pel_traces": pn, "pel_events": pev, "pel_rejects": prej[:200],
              "cases": n, "disagreements": len(dis), "dis": dis[:2000], "hist": hist, "panics": panics,
              "classes": len(classes), "class_hist": dict(classes.most_common(12)), "dir": d}
         json.dump(s, open(summ, "w"))
@@ -207,12 +211,17 @@ def check(spec, tier, seed, replay=None):
                 d0 = mine[0]
                 broken.append("correspondence: model M/Raft.v+RawNode.v and implementation disagree on %d of %d calls in this property's projection %s; first: %s differs in %s"
                               % (len(mine), summ["cases"], sorted(proj), d0["meta"], d0["keys"]))
-            if spec.get("acceptor") and summ.get("pel_rejects"):
-                r0 = summ["pel_rejects"][0]
-                broken.append("refinement: %d of %d simulated executions are NOT executions of the abstract protocol P (acceptor P/ElectionAccept.v); first: %s line %d answer '%s' (0 <event index> <reason 1 pre / 2 guard / 3 post> <event code>)"
-                              % (len(summ["pel_rejects"]), summ["pel_traces"], r0["file"], r0["line"], r0["answer"]))
-            if spec.get("acceptor"):
-                k2, prob2 = C.incoq_sample(rundir, "pel-sim", "run_pelection", "Run.RunPElection", 3, rng, maxlen=40000)
+            accname = spec.get("acceptor")
+            if accname:
+                a = summ.get("acceptors", {}).get(accname, {"traces": 0, "events": 0, "rejects": []})
+                summ["pel_traces"], summ["pel_events"], summ["pel_rejects"] = a["traces"], a["events"], a["rejects"]
+                pref, fun, mod = {"pelection": ("pel-sim", "run_pelection", "Run.RunPElection"),
+                                  "plog": ("plog-sim", "run_plog", "Run.RunPLog")}[accname]
+                if a["rejects"]:
+                    r0 = a["rejects"][0]
+                    broken.append("refinement: %d of %d simulated executions are NOT executions of the abstract protocol P (acceptor %s); first: %s line %d answer '%s' (0 <event index> <reason 1 pre / 2 guard / 3 post> <event code>)"
+                                  % (len(a["rejects"]), a["traces"], accname, r0["file"], r0["line"], r0["answer"]))
+                k2, prob2 = C.incoq_sample(rundir, pref, fun, mod, 2, rng, maxlen=30000)
                 if prob2:
                     broken.append("refinement (vm_compute): " + prob2)
             k, prob = C.incoq_sample(rundir, "node-sim", "run_node", "Run.RunNode", spec["incoq"][tier], rng, maxlen=60000)
@@ -228,10 +237,7 @@ def check(spec, tier, seed, replay=None):
     fail = None
     if okh and (broken or spec.get("always_monitor")):
         C.log("[%s] running the property monitor on the implementation" % pid)
-        fail = run_monitor(spec, tier, seed, bool(broken))
-    if fail and fail.get("known"):
-        known.append(fail)
-        fail = None
+        fail, known = run_monitor(spec, tier, seed, bool(broken))
     if broken or fail:
         body = "property: %s\ntier: %s\nseed: %s\nrepo: %s\n" % (pid, tier, seed, C.repo_tree_hash())
         for b in broken:
@@ -306,18 +312,13 @@ def load_known():
     return out
 
 
-def run_monitor(spec, tier, seed, escalate):
-    """Runs the Rust-side monitor of this property over simulated runs on the implementation
-    alone. Returns None or dict(args, reason, trace, known)."""
-    mon = spec.get("monitor")
-    if not mon:
-        return None
-    runs = {"quick": 150, "thorough": 1500}[tier] * (4 if escalate else 1)
-    rc, out = C.run([C.VH, "monitor", "--prop", mon, "--runs", str(runs), "--steps", "500", "--seed", str(seed)], timeout=3000)
+def parse_monitor(out):
+    """(fail or None, {ignored substring: count}) from `vharness monitor` output."""
     fail = None
+    ignored = {}
     lines = out.splitlines()
     for k, l in enumerate(lines):
-        if l.startswith("FAIL "):
+        if l.startswith("FAIL ") and fail is None:
             reason = ""
             trace = []
             for m in lines[k + 1:]:
@@ -326,9 +327,63 @@ def run_monitor(spec, tier, seed, escalate):
                 elif m.startswith("  "):
                     trace.append(m)
             fail = {"args": l[5:], "reason": reason, "trace": "\n".join(trace[-80:])}
-            break
-    if fail:
-        for kf in load_known():
-            if kf.get("property") == spec["id"] and kf.get("signature") and kf["signature"] in fail["reason"]:
-                fail["known"] = True
-    return fail
+        if l.startswith("IGNORED "):
+            p = l.split(None, 2)
+            if len(p) == 3:
+                ignored[p[2].strip()] = int(p[1])
+    return fail, ignored
+
+
+def sig_match(sig, reason):
+    return sig in reason or sig in reason.replace(" ", "_")
+
+
+def run_monitor(spec, tier, seed, escalate):
+    """Runs the Rust-side monitor of this property over simulated runs on the implementation
+    alone. Listed known findings of the property are passed as --ignore (so they do not mask
+    anything else); each one that is actually observed (in the search, or by its recorded
+    replay) is returned in `known`. Returns (fail or None, [known finding dicts])."""
+    mon = spec.get("monitor")
+    if not mon:
+        return None, []
+    mine = [kf for kf in load_known() if kf.get("property") == spec["id"] and kf.get("signature")]
+    runs = {"quick": 150, "thorough": 1500}[tier] * (4 if escalate else 1)
+    cmd = [C.VH, "monitor", "--prop", mon, "--runs", str(runs), "--steps", "500", "--seed", str(seed)]
+    if mine:
+        cmd += ["--ignore", ",".join(kf["signature"] for kf in mine)]
+    rc, out = C.run(cmd, timeout=3000)
+    fail, ignored = parse_monitor(out)
+    known = []
+    for kf in mine:
+        seen = sum(n for sub, n in ignored.items() if sub == kf["signature"] or sub.replace(" ", "_") == kf["signature"])
+        how = "seen %d times in %d simulated runs" % (seen, runs)
+        if not seen and kf.get("replay"):
+            # the recorded replay, with every OTHER known signature ignored
+            others = [o["signature"] for o in mine if o is not kf]
+            # replay arguments use '_' for spaces, but property names contain '_': restore them
+            rcmd = [C.VH, "monitor"] + fix_replay_args(kf["replay"]) + (["--ignore", ",".join(others)] if others else [])
+            rc2, out2 = C.run(rcmd, timeout=600)
+            f2, _ = parse_monitor(out2)
+            if f2 and sig_match(kf["signature"], f2["reason"]):
+                seen = 1
+                how = "reproduced by its recorded replay " + " ".join(fix_replay_args(kf["replay"]))
+        if seen:
+            known.append({"reason": "%s signature=%s (%s)" % (kf.get("site", ""), kf["signature"], how), "signature": kf["signature"]})
+    if fail and any(sig_match(kf["signature"], fail["reason"]) for kf in mine):
+        # belt and braces: a known signature that slipped through --ignore is not a new violation
+        if not any(k["signature"] for k in known if sig_match(k["signature"], fail["reason"])):
+            known.append({"reason": fail["reason"][:300], "signature": ""})
+        fail = None
+    return fail, known
+
+
+def fix_replay_args(r):
+    """'--prop_no_panic_--seed_1_--run_9' -> ['--prop','no_panic','--seed','1','--run','9']"""
+    out = []
+    for part in r.split("_--"):
+        part = part if part.startswith("--") else "--" + part
+        k, _, v = part.partition("_")
+        out.append(k)
+        if v:
+            out.append(v)
+    return out
